@@ -276,7 +276,16 @@ class SyncInterpreter(BaseInterpreter[TContext, TEvent]):
         # top-level final state must still release child actors and timers.
         # Guarding on `!= "running"` made `stop()` a silent no-op for every
         # machine that completed, leaking actors and their timer threads.
-        if self.status in ("uninitialized", "stopped"):
+        if self.status == "uninitialized":
+            return
+        if self.status == "stopped":
+            # 🧵 Another thread's `stop()` may still be waiting for a
+            #    macrostep in flight (see 0️⃣.5 below); returning at once
+            #    told this caller the interpreter was quiet while that step
+            #    went on running actions and transitions.
+            if self._drain_thread != threading.get_ident():
+                with self._drain_lock:
+                    pass
             return
 
         logger.info(
